@@ -99,8 +99,45 @@ struct Who
 
 inline std::map<std::string, long> g_replies; // key "<side> <port> <ev>"
 
+// Arbiter mode of the mock component for one provides port (script op `arbiter`): the claim handler
+// grants (returns `grant`, busy = true) when not busy and denies (returns `deny`) otherwise; the release
+// handler clears busy.  `busy` is only touched by component handlers, i.e. in dispatcher context for an
+// MTS port.  Reset by the `world` op.
+struct Arbiter
+{
+    bool on = false;
+    std::string port, claim, release;
+    long grant = 0, deny = 0;
+    bool busy = false;
+};
+inline Arbiter g_arbiter;
+
+// true: the arbiter decided the reply of this component-side event
+inline bool arbiter_hook(const Who& w, const char* ev, long& reply)
+{
+    Arbiter& a = g_arbiter;
+    if (!a.on || w.side[0] != 'c' || w.port != a.port) return false;
+    if (a.claim == ev)
+    {
+        if (!a.busy) { a.busy = true; reply = a.grant; }
+        else reply = a.deny;
+        return true;
+    }
+    if (a.release == ev) a.busy = false;
+    return false;
+}
+
+// called by the handler of an event without reply value, after its obs line
+inline void void_event(const Who& w, const char* ev)
+{
+    long ignored = 0;
+    arbiter_hook(w, ev, ignored);
+}
+
 inline long reply_of(const Who& w, const char* ev)
 {
+    long decided = 0;
+    if (arbiter_hook(w, ev, decided)) return decided;
 #ifdef VT_THREADED
     std::lock_guard<std::mutex> lock(g_emit_mutex);
 #endif
